@@ -115,9 +115,39 @@ def run_shape(ctx, tr, shape, via, origin, d=None, prev=None):
     return d
 
 
+EDGE_BYTES = (0x09, 0x0A, 0x0D, 0x20, 0x00, 0xFF)
+
+
+def edge_seed(size, pred, start):
+    """A blob seed whose content / digest satisfies pred (bytes that text handling treats specially at either end)."""
+    for seed in range(start, start + 200000):
+        if pred(envgen.blob(size, seed)):
+            return seed
+    raise core.MachineryError("no edge seed found")
+
+
+def edge_shapes(ctx):
+    """Files and digests whose FIRST or LAST byte is whitespace / NUL / 0xFF: 'those exact files' includes these bytes."""
+    out = []
+    k = 0
+    for alg in envgen.ALGS:
+        for pos in (0, -1):
+            for b in EDGE_BYTES if not ctx.quick else EDGE_BYTES[(len(out) // 3) % 2::2]:
+                k += 1
+                size = 33 + k
+                # (1) the DIGEST has the edge byte (matters for file_direct / raw forms), (2) the FILE CONTENT has it (file form,
+                # payload by path)
+                s1 = edge_seed(size, lambda d_: project.H(HASH_IDS[alg], d_)[pos] == b, 1000 * k)
+                s2 = edge_seed(size, lambda d_: d_[pos] == b, 1000 * k)
+                for form, seed in (("file_direct", s1), ("raw", s1), ("file", s2)):
+                    out.append({"walg": envgen.ALGS[k % 5], "wsup": "none", "seq": k, "pad": None, "mem": {}, "cid": None, "version": None,
+                                "pay": [[f"#e{k}", size, "file", s2]], "deps": [], "imgs": [[form, alg, size, seed]]})
+    return out
+
+
 def ref_shapes(ctx):
     rng = ctx.rng
-    out = []
+    out = edge_shapes(ctx)
     k = 0
     for form in ("file", "file_direct", "raw"):
         for alg in envgen.ALGS:
@@ -139,7 +169,7 @@ def ref_shapes(ctx):
 
 def run(ctx: core.Check):
     ctx.cov["rule"] = ("reference forms {file, file_direct, raw, envelope(inline|path)} x five algorithms x file sizes {0, 1, 23, 24, "
-                       "255, 256, 65535, 65536} x payloads by path with hex-looking names x dependency nesting to depth 3 with "
+                       "255, 256, 65535, 65536} x digests and file contents whose first / last byte is whitespace, NUL or 0xFF (found by search) x payloads by path with hex-looking names x dependency nesting to depth 3 with "
                        "stale supplied digests in children (TLC-enumerated parent/child combinations + seeded); every third description is "
                        "created again in the same process after all its files got other contents at the same paths. Distinct & "
                        "non-trivial = distinct (kind, form, algorithm, size | child member modes).")
